@@ -627,3 +627,49 @@ func Catch(f func()) (err error) {
 	f()
 	return nil
 }
+
+// SameConcurrently evaluates every fns[i](inputs[j]) once, one call at a time, and then lets `goroutines`
+// goroutines repeat all calls `rounds` times at the same time: for pure functions every concurrent result must equal
+// the result of the same call made alone. It returns the first difference (or panic).
+func SameConcurrently(names []string, fns []func(string) string, inputs []string, goroutines, rounds int) error {
+	want := make([][]string, len(fns))
+	for i, f := range fns {
+		for _, in := range inputs {
+			want[i] = append(want[i], f(in))
+		}
+	}
+	var mu sync.Mutex
+	var bad error
+	fail := func(f string, a ...any) {
+		mu.Lock()
+		if bad == nil {
+			bad = fmt.Errorf(f, a...)
+		}
+		mu.Unlock()
+	}
+	var wg sync.WaitGroup
+	for gi := 0; gi < goroutines; gi++ {
+		wg.Add(1)
+		go func(gi int) {
+			defer wg.Done()
+			defer func() {
+				if p := recover(); p != nil {
+					fail("panic in a concurrent caller: %v", p)
+				}
+			}()
+			for round := 0; round < rounds; round++ {
+				for i := range fns {
+					ci := (i + gi) % len(fns)
+					for j, in := range inputs {
+						if got := fns[ci](in); got != want[ci][j] {
+							fail("%s(%q) = %q while %d goroutines call concurrently; called alone it returns %q", names[ci], trunc(in, 200), trunc(got, 300), goroutines, trunc(want[ci][j], 300))
+							return
+						}
+					}
+				}
+			}
+		}(gi)
+	}
+	wg.Wait()
+	return bad
+}
